@@ -53,6 +53,9 @@ func (s *SPDX23) Serialize(bom *sbom.Document, _ *native.SerializeOptions, _ int
 	if bom.Metadata == nil {
 		return nil, errors.New("document metadata is nil, unable to serialize to SPDX 2.3")
 	}
+	if bom.NodeList == nil {
+		return nil, errors.New("document node list is nil, unable to serialize to SPDX 2.3")
+	}
 	doc := &spdx.Document{
 		SPDXVersion:       spdx.Version,
 		DataLicense:       spdx.DataLicense,
